@@ -55,6 +55,18 @@ fn iso_all() -> Vec<Job> {
     ]
 }
 
+fn conc_all() -> Vec<Job> {
+    use Backend::*;
+    use Entry::*;
+    let mk = |name: &str, backend, entry, quick, thorough| Job { name: name.to_string(), kind: JobKind::Conc { backend, entry }, quick, thorough };
+    vec![
+        mk("conc-mem-http", Memory, Http, 6000, 400_000),
+        mk("conc-mem-lib", Memory, Lib, 6000, 400_000),
+        mk("conc-sqlite-http", Sqlite, Http, 3000, 150_000),
+        mk("conc-sqlite-lib", Sqlite, Lib, 3000, 150_000),
+    ]
+}
+
 fn wire_all() -> Vec<Job> {
     vec![
         Job { name: "wire-mem".into(), kind: JobKind::Wire { backend: Backend::Memory }, quick: 6000, thorough: 300_000 },
@@ -72,12 +84,19 @@ pub fn jobs_for(prop: &str) -> Vec<Job> {
             v
         }
         "C15" | "C16" => wire_all(),
-        "C10" | "C11" => seq_all(Focus::Snapshots, 1),
+        "C10" => seq_all(Focus::Snapshots, 1),
+        "C11" => {
+            let mut v = seq_all(Focus::Snapshots, 1);
+            v.extend(conc_all());
+            v
+        }
+        "C03" => conc_all(),
         "C12" => seq_all(Focus::Urgency, 1),
         "C06" => seq_all(Focus::Payloads, 1),
         "C14" => {
             let mut v = seq_http(Focus::General, 1);
             v.push(twin(TwinMode::HttpLib, 3000, 150_000));
+            v.extend(wire_all());
             v
         }
         "C20" => {
